@@ -30,6 +30,8 @@ pub struct FileState {
     path: String,
     persister: Arc<PersisterKind>,
     encryptor: Option<Arc<EncryptorKind>>,
+    /// Serializes `apply`: taking the next index and appending the entry must not interleave.
+    apply_lock: tokio::sync::Mutex<()>,
 }
 
 impl FileState {
@@ -48,6 +50,7 @@ impl FileState {
             persister,
             encryptor,
             version: version.get_numeric_version().expect("Invalid version"),
+            apply_lock: tokio::sync::Mutex::new(()),
         }
     }
 
@@ -294,6 +297,8 @@ impl State for FileState {
 
     async fn apply(&self, user_id: u32, command: EntryCommand) -> Result<(), IggyError> {
         debug!("Applying state entry with command: {command}, user ID: {user_id}");
+        // Commands journalled under the shared system lock may run concurrently.
+        let _apply_guard = self.apply_lock.lock().await;
         let timestamp = IggyTimestamp::now();
         let index = if self.entries_count.load(Ordering::SeqCst) == 0 {
             0
@@ -353,7 +358,8 @@ impl State for FileState {
         );
         let bytes = entry.to_bytes();
         self.entries_count.fetch_add(1, Ordering::SeqCst);
-        self.persister
+        if let Err(error) = self
+            .persister
             .append(&self.path, &bytes)
             .await
             .with_error_context(|error| {
@@ -362,7 +368,16 @@ impl State for FileState {
                     self.path,
                     bytes.len()
                 )
-            })?;
+            })
+        {
+            // Nothing was journalled: give the index back, otherwise the next entry leaves a gap
+            // and the state file can never be loaded again.
+            self.entries_count.fetch_sub(1, Ordering::SeqCst);
+            if index > 0 {
+                self.current_index.fetch_sub(1, Ordering::SeqCst);
+            }
+            return Err(error);
+        }
         debug!("Applied state entry: {entry}");
         Ok(())
     }
